@@ -427,9 +427,15 @@ func (g *GoBackNConn) sendPacketsForever() error {
 			default:
 			}
 
-			// Start the pong timer.
-			g.pongTicker.Reset()
-			g.pongTicker.Resume()
+			// Start the pong timer, unless it is already running
+			// for an earlier ping that has not been answered:
+			// restarting it would postpone the timeout for as
+			// long as the ping interval is shorter than the pong
+			// timeout.
+			if !g.pongTicker.IsActive() {
+				g.pongTicker.Reset()
+				g.pongTicker.Resume()
+			}
 
 			// Also reset the ping timer.
 			g.pingTicker.Reset()
@@ -479,6 +485,32 @@ func (g *GoBackNConn) sendPacketsForever() error {
 				if err := resendQueue(); err != nil {
 					return err
 				}
+
+			case <-g.pingTicker.Ticks():
+				// We have not received anything for the ping
+				// time, but the window is full so we can't
+				// queue a ping packet. The packets in the
+				// queue are being resent though, and any
+				// response to them pauses the pong timer just
+				// like the response to a ping would. So we
+				// only start the pong timer here, to make sure
+				// that a dead peer is also detected while we
+				// are sitting on a full window.
+				select {
+				case <-g.pongTicker.Ticks():
+					return errKeepaliveTimeout
+				default:
+				}
+
+				if !g.pongTicker.IsActive() {
+					g.pongTicker.Reset()
+					g.pongTicker.Resume()
+				}
+
+				g.pingTicker.Reset()
+
+			case <-g.pongTicker.Ticks():
+				return errKeepaliveTimeout
 			}
 		}
 	}
